@@ -25,6 +25,8 @@ static ABT_xstream sc_xs[MAX_ES];
 static ABT_pool sc_pool[MAX_ES];
 static actor sc_actors[MAX_ACTORS];
 static int sc_nactors;
+static int sc_shared;        /* asked for: the secondary streams also serve one common pool (needs >= 2 of them) */
+static ABT_pool sc_shpool = ABT_POOL_NULL;
 
 static inline int sc_rnd(int n) { return (int)(vs_rand() % (uint64_t)n); }
 
@@ -43,10 +45,16 @@ static void sc_streams(int nes, ABT_sched_predef sched)
         vsa_name_thread(self, "A99");
         vs_note("actor A99 kind=ult es=0");
     }
+    if (sc_shared && nes >= 3) {
+        /* work units of this pool block on one stream and come back on another */
+        ABT_OK(ABT_pool_create_basic(ABT_POOL_FIFO, ABT_POOL_ACCESS_MPMC, ABT_TRUE, &sc_shpool));
+        vsa_name_pool(sc_shpool, "P%d", nes);
+    }
     for (int i = 1; i < nes; i++) {
         ABT_OK(ABT_pool_create_basic(ABT_POOL_FIFO, ABT_POOL_ACCESS_MPMC, ABT_TRUE, &sc_pool[i]));
         vsa_name_pool(sc_pool[i], "P%d", i);
-        ABT_OK(ABT_xstream_create_basic(sched, 1, &sc_pool[i], ABT_SCHED_CONFIG_NULL, &sc_xs[i]));
+        ABT_pool two[2] = { sc_pool[i], sc_shpool };
+        ABT_OK(ABT_xstream_create_basic(sched, sc_shpool != ABT_POOL_NULL ? 2 : 1, two, ABT_SCHED_CONFIG_NULL, &sc_xs[i]));
         vsa_name_xstream(sc_xs[i], "X%d", i);
     }
 }
@@ -71,11 +79,14 @@ static void sc_launch(void)
     for (int i = 0; i < sc_nactors; i++) {
         actor *a = &sc_actors[i];
         a->id = i;
+        ABT_pool pl = sc_pool[a->es];
+        if (sc_shpool != ABT_POOL_NULL && a->kind != AK_EXT && a->es >= 1 && sc_rnd(2))
+            pl = sc_shpool;
         if (a->kind == AK_ULT) {
-            ABT_OK(ABT_thread_create(sc_pool[a->es], sc_actor_entry, a, ABT_THREAD_ATTR_NULL, &a->th));
+            ABT_OK(ABT_thread_create(pl, sc_actor_entry, a, ABT_THREAD_ATTR_NULL, &a->th));
             vsa_name_thread(a->th, "A%d", i);
         } else if (a->kind == AK_TASK) {
-            ABT_OK(ABT_task_create(sc_pool[a->es], sc_actor_entry, a, (ABT_task *)&a->th));
+            ABT_OK(ABT_task_create(pl, sc_actor_entry, a, (ABT_task *)&a->th));
             vsa_name_thread(a->th, "A%d", i);
         } else {
             pthread_create(&a->pt, NULL, sc_actor_entry_pt, a);
